@@ -24,6 +24,9 @@ TAU_ROOTS = Fraction(1, 10 ** 7)     # coefficients rebuilt from the returned ro
 # ----------------------------------------------------------------------------
 # case = {"sys": sys, "op": op, ...}
 #   sys = ["LT", p, m, dt, [[num, den]...]]  |  ["LS", ns, p, m, dt, A, B, C, D]     (token lists)
+#       | ["LC", p, m, dt, [[num, den]...], ctype]   transfer function with complex coefficients: every
+#         coefficient is a pair [re, im] of tokens; ctype "mixed" (real polynomials are handed over as
+#         float lists) | "complex" (every polynomial as a complex list)
 #   op "call":  "xs": [[re, im]...], "scalar": bool, "via": "call"|"evalfr"|"horner", "xkind": ...
 #   op "freq":  "ws": [w...], "scalar": bool, "via": "method"|"func"
 #   op "dc":    "via": "method"|"func"
@@ -53,7 +56,95 @@ def npmat(vals, r, c):
     return np.array([float(Fraction(v)) for v in vals], dtype=float).reshape(r, c)
 
 
+class GQ:
+    """a Gaussian rational (exact arithmetic for the complex-coefficient stream); mixes with
+    int / Fraction"""
+    __slots__ = ("re", "im")
+
+    def __init__(self, re_=0, im_=0):
+        self.re = Fraction(re_)
+        self.im = Fraction(im_)
+
+    @staticmethod
+    def of(x):
+        return x if isinstance(x, GQ) else GQ(x, 0)
+
+    def __add__(self, o):
+        o = GQ.of(o)
+        return GQ(self.re + o.re, self.im + o.im)
+    __radd__ = __add__
+
+    def __neg__(self):
+        return GQ(-self.re, -self.im)
+
+    def __sub__(self, o):
+        o = GQ.of(o)
+        return GQ(self.re - o.re, self.im - o.im)
+
+    def __rsub__(self, o):
+        return GQ.of(o) - self
+
+    def __mul__(self, o):
+        o = GQ.of(o)
+        return GQ(self.re * o.re - self.im * o.im, self.re * o.im + self.im * o.re)
+    __rmul__ = __mul__
+
+    def __truediv__(self, o):
+        o = GQ.of(o)
+        d = o.re * o.re + o.im * o.im
+        return GQ((self.re * o.re + self.im * o.im) / d, (self.im * o.re - self.re * o.im) / d)
+
+    def __rtruediv__(self, o):
+        return GQ.of(o) / self
+
+    def __eq__(self, o):
+        o = GQ.of(o)
+        return self.re == o.re and self.im == o.im
+
+    def __hash__(self):
+        return hash((self.re, self.im))
+
+    def __complex__(self):
+        return complex(float(self.re), float(self.im))
+
+    def __repr__(self):
+        return "GQ(%s,%s)" % (self.re, self.im)
+
+
+def gq_poly(pairs):
+    return [GQ(Fraction(a), Fraction(b)) for a, b in pairs]
+
+
+def pair_toks(p):
+    return [[tok(GQ.of(c).re), tok(GQ.of(c).im)] for c in p]
+
+
+def is_tf(sysd):
+    return sysd[0] in ("LT", "LC")
+
+
+def ent_gq(sysd, idx):
+    """(num, den) of entry idx of a transfer function as lists of GQ"""
+    n, d = sysd[4][idx]
+    if sysd[0] == "LC":
+        return gq_poly(n), gq_poly(d)
+    return [GQ(Fraction(x)) for x in n], [GQ(Fraction(x)) for x in d]
+
+
+def py_poly(pairs, ctype):
+    """the coefficient list handed to TransferFunction"""
+    zs = [complex(float(Fraction(a)), float(Fraction(b))) for a, b in pairs]
+    if ctype == "mixed" and all(z.imag == 0 for z in zs):
+        return [z.real for z in zs]
+    return zs
+
+
 def build(sysd):
+    if sysd[0] == "LC":
+        _, p, m, dt, ents, ctype = sysd
+        num = [[py_poly(ents[i * m + j][0], ctype) for j in range(m)] for i in range(p)]
+        den = [[py_poly(ents[i * m + j][1], ctype) for j in range(m)] for i in range(p)]
+        return ct.TransferFunction(num, den, dt_value(dt))
     if sysd[0] == "LT":
         _, p, m, dt, ents = sysd
         num = [[[float(Fraction(x)) for x in ents[i * m + j][0]] for j in range(m)] for i in range(p)]
@@ -64,6 +155,12 @@ def build(sysd):
 
 
 def sys_tokens(sysd):
+    if sysd[0] == "LC":
+        s = "LC %d %d %s" % (sysd[1], sysd[2], sysd[3])
+        for (n, d) in sysd[4]:
+            s += " %d %s %d %s" % (len(n), " ".join("%s %s" % (a, b) for a, b in n),
+                                   len(d), " ".join("%s %s" % (a, b) for a, b in d))
+        return s
     if sysd[0] == "LT":
         s = "LT %d %d %s" % (sysd[1], sysd[2], sysd[3])
         for (n, d) in sysd[4]:
@@ -79,15 +176,15 @@ def wtok(w):
 
 
 def sys_shape(sysd):
-    return (sysd[1], sysd[2]) if sysd[0] == "LT" else (sysd[2], sysd[3])
+    return (sysd[1], sysd[2]) if is_tf(sysd) else (sysd[2], sysd[3])
 
 
 def sys_dt(sysd):
-    return sysd[3] if sysd[0] == "LT" else sysd[4]
+    return sysd[3] if is_tf(sysd) else sysd[4]
 
 
 def nstates_bucket(sysd):
-    if sysd[0] == "LT":
+    if is_tf(sysd):
         return "-"
     return "0" if sysd[1] == 0 else ("1" if sysd[1] == 1 else "2+")
 
@@ -316,6 +413,29 @@ def poly_toks(p):
     return "%d %s" % (len(p), " ".join(tok(x) for x in p))
 
 
+def cpoly_toks(p):
+    """a polynomial over Q(i) (the candidates of a complex-coefficient system)"""
+    return "%d %s" % (len(p), " ".join("%s %s" % (tok(GQ.of(x).re), tok(GQ.of(x).im)) for x in p))
+
+
+def clist(p):
+    """a coefficient array as a comparable record: floats, or [re, im] pairs when some
+    coefficient is not real"""
+    a = np.atleast_1d(np.asarray(p))
+    if np.iscomplexobj(a):
+        if np.any(a.imag != 0):
+            return [[float(z.real), float(z.imag)] for z in a]
+        a = a.real
+    return [float(x) for x in a]
+
+
+def clist_of(gqs):
+    """the same record for an exact polynomial (list of GQ)"""
+    if any(c.im != 0 for c in gqs):
+        return [[float(c.re), float(c.im)] for c in gqs]
+    return [float(c.re) for c in gqs]
+
+
 # ---- classification of implementation values -----------------------------------------------
 def cell_of(z):
     z = complex(z)
@@ -360,12 +480,11 @@ class Recorder:
             return s_geig(a, b, *r, **k)
 
         def roots(p):
-            self.calls.append(("roots", [float(x) for x in np.atleast_1d(p)]))
+            self.calls.append(("roots", clist(p)))
             return s_roots(p)
 
         def tf2zpk(b, a):
-            self.calls.append(("tf2zpk", [float(x) for x in np.atleast_1d(b)],
-                               [float(x) for x in np.atleast_1d(a)]))
+            self.calls.append(("tf2zpk", clist(b), clist(a)))
             return s_tf2zpk(b, a)
 
         _statesp.eigvals = eig
@@ -386,10 +505,12 @@ def cabs2(re_, im_):
 def tf_cond(num, den, x):
     """float bound on the absolute rounding error of polyval(num,x)/polyval(den,x), in units of eps"""
     ax = abs(x)
-    sn = sum(abs(float(c)) * ax ** (len(num) - 1 - k) for k, c in enumerate(num))
-    sd = sum(abs(float(c)) * ax ** (len(den) - 1 - k) for k, c in enumerate(den))
-    dv = abs(np.polyval([float(c) for c in den], x))
-    nv = abs(np.polyval([float(c) for c in num], x))
+    num = [complex(c) for c in num]
+    den = [complex(c) for c in den]
+    sn = sum(abs(c) * ax ** (len(num) - 1 - k) for k, c in enumerate(num))
+    sd = sum(abs(c) * ax ** (len(den) - 1 - k) for k, c in enumerate(den))
+    dv = abs(np.polyval(den, x))
+    nv = abs(np.polyval(num, x))
     if dv == 0:
         return float("inf")
     return (len(num) + len(den) + 2) * (sn / dv + nv * sd / (dv * dv))
@@ -411,10 +532,17 @@ class C04(Family):
         "points, integer coefficients, LU factorisations with power-of-two pivots)",
         "a singular zero pencil (det(L - sM) identically 0) leaves the inf/nan decision of the singular branch to "
         "the external QZ routine: either class is accepted there",
+        "the type (real / complex array) of the dcgain result is compared with the model of the `_dcgain` "
+        "post-processing; a difference in the type alone (all values equal) is reported as a broken correspondence, "
+        "not as a failing input",
         "squeeze conventions of the returned arrays belong to C18 (squeeze=False is used); the timebase and the "
         "labels of the FrequencyResponseData object belong to C03/C05"]
     rule = ("random TransferFunction (shapes {1,2,3}^2, denominators built from small integer roots incl. 0, 1 and "
-            "imaginary pairs, leading coefficients, cancelling numerators) and StateSpace systems (0-4 states, "
+            "imaginary pairs, leading coefficients, cancelling numerators), TransferFunction with complex "
+            "(Gaussian-rational) coefficients (real / imaginary / general numerators over real denominators or "
+            "denominators with Gaussian-integer roots and non-real leading coefficients; handed over as mixed "
+            "float/complex or all-complex lists; MIMO-biased for dcgain so that gain matrices mix real, infinite "
+            "(inf+nan j and nan+inf j), NaN and non-real entries) and StateSpace systems (0-4 states, "
             "integer matrices, forced singular xI-A, zero rows/columns in B/C) in every timebase "
             "(None, 0, True, 0.1, 1/2, 1, 2); operations call (scalar/array, via __call__/evalfr/horner, points "
             "in Q(i) incl. exact poles), frequency_response (unsorted, repeated, zero, above-Nyquist frequencies, "
@@ -493,6 +621,79 @@ class C04(Family):
             poles += pts
         return ["LT", p, m, self.rdt(rng), ents], poles
 
+    # ---- transfer functions with complex coefficients (only TransferFunction can hold them) ----
+    CROOTS = [(0, 0), (0, 0), (1, 0), (1, 0), (-1, 0), (-2, 0), (2, 0), (0, 1), (0, -1), (1, 1), (-1, 1),
+              (1, -1), (0, 2), (-1, -1)]
+    CLEAD = [(1, 0), (1, 0), (1, 0), (2, 0), (-1, 0), (0, 1), (0, -1), (1, 1), (Fraction(1, 2), 0)]
+
+    def cpoly_roots(self, rng, nroots):
+        """(coeffs, roots) of a product of distinct linear factors s - r, r a Gaussian integer"""
+        coefs, roots = [GQ(1)], []
+        while len(roots) < nroots:
+            r = rng.choice(self.CROOTS)
+            if r in roots:
+                continue
+            roots.append(r)
+            coefs = exact.pmul(coefs, [GQ(1), GQ(-r[0], -r[1])])
+        return coefs, roots
+
+    def rgq(self, rng, kind):
+        a, b = rng.randint(-3, 3), rng.randint(-3, 3)
+        if kind == "real":
+            return GQ(a, 0)
+        if kind == "imag":
+            return GQ(0, b)
+        return GQ(a, b)
+
+    def lc_entry(self, rng, cden):
+        """one entry with Gaussian-rational coefficients.  `cden`: probability of a denominator
+        with non-real roots / a non-real leading coefficient (otherwise the denominator is a real
+        polynomial and only the numerator is complex).  Returns ([num, den] as pair tokens,
+        exact pole points)."""
+        dn = rng.choice([0, 1, 1, 2, 2, 3])
+        if rng.random() < cden:
+            den, roots = self.cpoly_roots(rng, dn)
+            lead = GQ(*rng.choice(self.CLEAD))
+        else:
+            rden, keys = self.rpoly_roots(rng, dn, simple=True)
+            den, roots = [GQ(c) for c in rden], []
+            for key in keys:
+                roots += [(0, key[1]), (0, -key[1])] if key[0] == "im" else [(key[1], 0)]
+            lead = GQ(rng.choice([1, 1, 1, 2, -1, 3, Fraction(1, 2)]))
+        den = exact.pscale(lead, den)
+        r = rng.random()
+        kind = rng.choice(["real", "real", "imag", "imag", "gen", "gen"])
+        if r < 0.25 and roots:
+            # numerator sharing a root with the denominator (0/0 at that point)
+            z = rng.choice(roots)
+            rest = [self.rgq(rng, kind) for _ in range(rng.choice([1, 1, 2]))]
+            if all(c == 0 for c in rest):
+                rest = [GQ(0, 1)]
+            num = exact.ptrim(exact.pmul([GQ(1), GQ(-z[0], -z[1])], exact.ptrim(rest)))
+        else:
+            nn = rng.randint(0, dn + (1 if rng.random() < 0.15 else 0))
+            num = [self.rgq(rng, kind) for _ in range(nn + 1)]
+            if rng.random() < 0.2:
+                num = [c / 2 for c in num]
+            num = exact.ptrim(num)
+        if exact.pzero(num):
+            if rng.random() < 0.3:
+                num, den, roots = [GQ(0)], [GQ(1)], []      # the constructor's normal form of 0
+            else:
+                num = [GQ(0, 1) if kind != "real" else GQ(1)]
+        return [pair_toks(num), pair_toks(den)], [[str(a), str(b)] for a, b in roots]
+
+    def lc_sys(self, rng, shape=None, mimo=False):
+        shapes = [(1, 2), (2, 1), (2, 2), (2, 2), (2, 3), (3, 2), (3, 3)]
+        p, m = shape or rng.choice(shapes if mimo else shapes + [(1, 1), (1, 1), (1, 2), (2, 1)])
+        cden = rng.choice([0.0, 0.0, 0.5, 1.0])
+        ents, poles = [], []
+        for _ in range(p * m):
+            e, pts = self.lc_entry(rng, cden)
+            ents.append(e)
+            poles += pts
+        return ["LC", p, m, self.rdt(rng), ents, rng.choice(["mixed", "mixed", "complex"])], poles
+
     def sing_matrix(self, rng, n):
         """integer matrix M (= x0 I - A) with det M = 0 on which LU with partial pivoting is exact"""
         for _ in range(400):
@@ -559,7 +760,10 @@ class C04(Family):
         return ["LS", ns, p, m, dt, flat(A), flat(B), flat(C), flat(D)], poles
 
     def rsys(self, rng, tier, **kw):
-        if rng.random() < 0.45:
+        r = rng.random()
+        if r < 0.2:
+            return self.lc_sys(rng, **{k: v for k, v in kw.items() if k in ("shape",)})
+        if r < 0.53:
             return self.tf_sys(rng, **{k: v for k, v in kw.items() if k in ("shape", "simple")})
         return self.ss_sys(rng, tier, **{k: v for k, v in kw.items() if k in ("shape", "want_pole")})
 
@@ -593,19 +797,28 @@ class C04(Family):
         return {"sys": sysd, "op": "freq", "ws": ws, "scalar": k == 1 and rng.random() < 0.5,
                 "via": rng.choice(["method", "method", "func"]) if k != 2 else "method"}
 
+    def gen_dc_complex(self, rng, tier):
+        # the real-part post-processing of `_dcgain` only matters for gain matrices that mix real /
+        # infinite entries with non-real ones: MIMO, complex coefficients
+        sysd, _ = self.lc_sys(rng, mimo=True)
+        return {"sys": sysd, "op": "dc", "via": rng.choice(["method", "func"])}
+
     def gen_dc(self, rng, tier):
         sysd, _ = self.rsys(rng, tier)
         return {"sys": sysd, "op": "dc", "via": rng.choice(["method", "func"])}
 
     def gen_pz(self, rng, tier, op):
-        if rng.random() < 0.5:
+        r = rng.random()
+        if r < 0.2:
+            sysd, _ = self.lc_sys(rng, shape=rng.choice([(1, 1), (1, 1), (1, 1), (1, 2), (2, 1), (2, 2)]))
+        elif r < 0.55:
             sysd, _ = self.tf_sys(rng, simple=True)
         else:
             sysd, _ = self.ss_sys(rng, tier)
         return {"sys": sysd, "op": op, "via": rng.choice(["method", "func"])}
 
     def generate(self, rng, tier):
-        n = 700 if tier == "quick" else 12000
+        n = 800 if tier == "quick" else 12000
         out = []
         for i in range(n):
             r = i % 10
@@ -619,6 +832,8 @@ class C04(Family):
                 out.append(self.gen_pz(rng, tier, "poles"))
             else:
                 out.append(self.gen_pz(rng, tier, "zeros"))
+        for i in range(n // 20):
+            out.append(self.gen_dc_complex(rng, tier))
         return out
 
     def corpus(self):
@@ -646,6 +861,52 @@ class C04(Family):
             {"sys": ss(2, 1, 1, "D1/2", "1/2 0 1 1/4", "1 0", "0 1", "0"), "op": "freq",
              "ws": ["3", "1/2", "10", "1/2"], "scalar": False, "via": "method"},
             call(ss(2, 1, 1, "C", "0 1 -1 0", "0 1", "1 0", "0"), [["0", "1"], ["0", "-1"], ["1", "1"]]),
+        ] + self.corpus_complex()
+
+    def corpus_complex(self):
+        """complex coefficients: gain matrices that mix real / infinite / NaN entries with non-real
+        ones (the real-part post-processing of `_dcgain` must leave them alone), the component
+        patterns of a division by zero (`inf + nan j` passes the test of `_dcgain`, `nan + inf j`
+        does not), all-real, all-complex and SISO references, and the other operations on the same
+        systems"""
+        def cp(txt):
+            # "1 j -2j 1+j 1/2" -> pair tokens
+            out = []
+            for t in txt.split():
+                if not t.endswith("j"):
+                    out.append([t, "0"])
+                    continue
+                t = t[:-1]
+                k = max(t.rfind("+"), t.rfind("-"))
+                a, b = (t[:k], t[k:]) if k > 0 else ("0", t)
+                b = {"": "1", "+": "1", "-": "-1"}.get(b, b.lstrip("+"))
+                out.append([a, b])
+            return out
+
+        def lc(p, m, dt, ents, ctype="mixed"):
+            return ["LC", p, m, dt, [[cp(n), cp(d)] for n, d in ents], ctype]
+        dc = lambda s, via="method": {"sys": s, "op": "dc", "via": via}
+        g12 = lc(1, 2, "C", [("1", "1 1"), ("j", "1 2")])                      # [1, j/2]
+        g22 = lc(2, 2, "T", [("1", "1 -1/2"), ("1+j", "1 1/2"), ("1", "1 -1"), ("2", "1 0")])
+        return [
+            dc(g12), dc(g12, "func"), dc(lc(1, 2, "C", [("1", "1 1"), ("j", "1 2")], "complex")),
+            dc(g22), dc(lc(2, 1, "D1/10", [("1 1", "1 0"), ("2-j", "1 j")])),
+            dc(lc(1, 2, "C", [("1", "1 0"), ("j", "1 1")])),                   # inf + nan j, j
+            dc(lc(1, 2, "C", [("j", "1 0"), ("1", "1 1")])),                   # nan + inf j, 1
+            dc(lc(1, 3, "N", [("1 0", "1 0 0"), ("3", "1 1"), ("1+j", "2 1")])),   # nan, 3, 1+j
+            dc(lc(1, 3, "C", [("1", "1 0"), ("1 0", "1 0"), ("2", "1")])),     # inf, nan, 2: a real array
+            dc(lc(1, 2, "C", [("j", "1 1"), ("3j", "1 2")])),                  # all entries non-real
+            dc(lc(1, 2, "C", [("1", "1 1"), ("3", "1 2")], "complex")),        # all real, complex dtype
+            dc(lc(1, 1, "C", [("j", "1 2")])), dc(lc(1, 1, "T", [("1+j", "j -j")])),
+            {"sys": g12, "op": "call", "xs": [["0", "0"], ["0", "1"], ["-1", "0"]], "scalar": False,
+             "via": "call", "xkind": "complex"},
+            {"sys": g22, "op": "freq", "ws": ["2", "0", "1/2"], "scalar": False, "via": "method"},
+            {"sys": lc(1, 1, "C", [("j 1", "1 -j")]), "op": "call", "xs": [["0", "1"], ["0", "0"]],
+             "scalar": False, "via": "evalfr", "xkind": "complex"},
+            {"sys": lc(1, 1, "C", [("j 1", "1 2")]), "op": "zeros", "via": "method"},
+            {"sys": g12, "op": "poles", "via": "method"},
+            # known finding C04-tf-poles-complex-den: poly(poles).real in _common_den
+            {"sys": lc(1, 1, "C", [("1", "1 -j")]), "op": "poles", "via": "method"},
         ]
 
     # ---- execution ----------------------------------------------------------------------
@@ -670,15 +931,19 @@ class C04(Family):
                 return s + " poles " + poly_toks(cand)
             p, m = sysd[1], sysd[2]
             out = s + " poles"
+            pt = cpoly_toks if sysd[0] == "LC" else poly_toks
             for j in range(m):
-                dens = [[Fraction(x) for x in sysd[4][i * m + j][1]] for i in range(p)]
+                if sysd[0] == "LC":
+                    dens = [ent_gq(sysd, i * m + j)[1] for i in range(p)]
+                else:
+                    dens = [[Fraction(x) for x in sysd[4][i * m + j][1]] for i in range(p)]
                 L, cof, bez = plcm_cert(dens)
-                out += " " + poly_toks(L)
-                out += " %d %s" % (len(cof), " ".join(poly_toks(c) for c in cof))
-                out += " %d %s" % (len(bez), " ".join(poly_toks(c) for c in bez))
+                out += " " + pt(L)
+                out += " %d %s" % (len(cof), " ".join(pt(c) for c in cof))
+                out += " %d %s" % (len(bez), " ".join(pt(c) for c in bez))
             return out
         if op == "zeros":
-            if sysd[0] == "LT":
+            if is_tf(sysd):
                 return s + " zeros"
             _, ns, p, m, dt, A, B, C, D = sysd
             cand = [F0]
@@ -770,6 +1035,9 @@ class C04(Family):
             if op == "freq":
                 assert tk.next() == "W"
                 res["omega"] = [tok(tk.rat()) for _ in range(k)]
+            if op == "dc":
+                assert tk.next() == "R"
+                res["real"] = bool(tk.nat())
             pts = []
             for _ in range(k):
                 assert tk.next() == "P"
@@ -798,8 +1066,7 @@ class C04(Family):
                 pl = []
                 for _ in range(n):
                     re_, im_ = tk.rat(), tk.rat()
-                    assert im_ == 0
-                    pl.append(tok(re_))
+                    pl.append([tok(re_), tok(im_)])
                 polys.append(pl)
             return {"ok": {"type": "roots", "polys": polys, "arg": None}}
         assert kind == "poly"
@@ -807,8 +1074,7 @@ class C04(Family):
         pl = []
         for _ in range(n):
             re_, im_ = tk.rat(), tk.rat()
-            assert im_ == 0
-            pl.append(tok(re_))
+            pl.append([tok(re_), tok(im_)])
         arg = None
         if not tk.done():
             assert tk.next() == "arg"
@@ -822,7 +1088,7 @@ class C04(Family):
     def feats(self, case, kind, **kw):
         sysd = case["sys"]
         p, m = sys_shape(sysd)
-        f = {"kind": kind, "op": case["op"], "rep": "tf" if sysd[0] == "LT" else "ss",
+        f = {"kind": kind, "op": case["op"], "rep": {"LT": "tf", "LC": "tfc", "LS": "ss"}[sysd[0]],
              "nstates": nstates_bucket(sysd), "square": p == m}
         f.update(kw)
         return f
@@ -840,7 +1106,7 @@ class C04(Family):
         return None   # per entry, see tf_tau
 
     def tf_tau(self, ent, x, scale):
-        c = tf_cond([Fraction(a) for a in ent[0]], [Fraction(a) for a in ent[1]], x)
+        c = tf_cond(ent[0], ent[1], x)
         eps = 2.3e-16
         if c * eps * 1e3 <= 1e-9 * scale:
             return TAU
@@ -889,11 +1155,6 @@ class C04(Family):
                            self.feats(case, "grid"))
         if io["k"] != mo["k"]:
             return Verdict(VIOLATES, "number of points", self.feats(case, "shape"))
-        if op == "dc" and not io.get("real", True):
-            # `_dcgain` keeps a complex array only when some entry has a non-real finite value
-            for c in io["cells"][0]:
-                if c[0] == "F" and Fraction(c[2]) != 0:
-                    return Verdict(VIOLATES, "dcgain not real", self.feats(case, "dc-complex"))
         xf = self.xfloats(case, model)
         sysd = case["sys"]
         p, m = sys_shape(sysd)
@@ -920,8 +1181,8 @@ class C04(Family):
                 mre, mim = Fraction(mc[1]), Fraction(mc[2])
                 ire, iim = Fraction(ic[1]), Fraction(ic[2])
                 scale = max(Fraction(1), abs(mre), abs(mim))
-                if sysd[0] == "LT":
-                    tau = self.tf_tau(sysd[4][idx], xf[q], float(scale))
+                if is_tf(sysd):
+                    tau = self.tf_tau(ent_gq(sysd, idx), xf[q], float(scale))
                     if tau is None:
                         continue
                 else:
@@ -933,7 +1194,26 @@ class C04(Family):
                                    self.feats(case, "value", tol=str(float(tau))))
                 worst = max(worst, err / tau)
         self.side[id(case)] = {"worst": float(worst), "unjudged": unjudged}
+        if op == "dc":
+            self.side[id(case)]["dc"] = self.dc_mix(mo, io)
+            if io.get("real") != mo.get("real"):
+                # every value agrees, only the type of the array differs from what `_dcgain` (model:
+                # `dcPost`) returns: real exactly when every entry is real or `x + nan j`
+                return Verdict(DIFFERS, "dcgain returns a %s array, the model a %s one"
+                               % ("real" if io.get("real") else "complex", "real" if mo.get("real") else "complex"),
+                               self.feats(case, "dc-dtype", model_real=bool(mo.get("real"))))
         return Verdict(AGREE)
+
+    @staticmethod
+    def dc_mix(mo, io):
+        """which kinds of entries the gain matrix has (histogram: is the class that needs np.all reached)"""
+        kinds = set()
+        for c in mo["pts"][0]["cells"]:
+            if c[0] == "F":
+                kinds.add("real" if Fraction(c[2]) == 0 else "nonreal")
+            else:
+                kinds.add({"I": "inf", "N": "nan"}[c[0]])
+        return "+".join(sorted(kinds)) + ("/R" if mo.get("real") else "/C")
 
     def lu_certified(self, case, q):
         """is the LU of x_q I - A exact in binary64 (see lu_exact)"""
@@ -964,7 +1244,7 @@ class C04(Family):
                      [[float(Fraction(x)) for x in mo["arg"][0][i * sz:(i + 1) * sz]] for i in range(sz)],
                      [[float(Fraction(x)) for x in mo["arg"][1][i * sz:(i + 1) * sz]] for i in range(sz)])]
         if op == "zeros":
-            return [("roots", [float(Fraction(x)) for x in mo["polys"][0]])]
+            return [("roots", clist_of(gq_poly(mo["polys"][0])))]
         return None
 
     def compare_roots(self, case, io, mo):
@@ -983,8 +1263,8 @@ class C04(Family):
             # TransferFunction.poles(): every entry's denominator is factored once (roots or tf2zpk)
             p, m = sysd[1], sysd[2]
             first = [c for c in calls if c[0] in ("roots", "tf2zpk")][:p * m]
-            want = sorted([float(Fraction(x)) for x in sysd[4][i][1]] for i in range(p * m))
-            got = sorted((c[1] if c[0] == "roots" else c[2]) for c in first)
+            want = sorted((clist_of(ent_gq(sysd, i)[1]) for i in range(p * m)), key=repr)
+            got = sorted(((c[1] if c[0] == "roots" else c[2]) for c in first), key=repr)
             if got != want:
                 plumbing = "denominators factored %s, expected %s" % (got, want)
         # (2) the returned roots, through the rebuilt coefficients
@@ -996,29 +1276,35 @@ class C04(Family):
                 return self.plumb(case, plumbing)
         if not io["finite"]:
             return Verdict(VIOLATES, "non-finite roots", self.feats(case, "roots-nonfinite"))
-        total = [F1]
+        total = [GQ(1)]
         for pl in mo["polys"]:
-            total = exact.pmul(total, [Fraction(x) for x in pl])
+            total = exact.pmul(total, gq_poly(pl))
         total = exact.ptrim(total)
+        # `TransferFunction._common_den` rebuilds the common denominator as `poly(poles).real`
+        # (known finding for denominators that are not real after normalisation)
+        monic_real = all((c / pl2[0]).im == 0 for pl in mo["polys"]
+                         for pl2 in [exact.ptrim(gq_poly(pl))] if not exact.pzero(pl2) for c in pl2)
+        extra = {"monic": "real" if monic_real else "nonreal"} if sysd[0] == "LC" else {}
         if exact.pzero(total):
             # zero polynomial: numpy.roots([0]) is empty; a singular zero pencil is QZ's business
-            if sysd[0] == "LT" and io["n"] != 0:
+            if is_tf(sysd) and io["n"] != 0:
                 return Verdict(VIOLATES, "roots of the zero polynomial", self.feats(case, "roots-count"))
             return self.plumb(case, plumbing)
         deg = len(total) - 1
         if io["n"] != deg:
             return Verdict(VIOLATES, "%d roots returned, polynomial of degree %d" % (io["n"], deg),
-                           self.feats(case, "roots-count"))
+                           self.feats(case, "roots-count", **extra))
         rts = np.array([complex(a, b) for a, b in io["roots"]])
         rebuilt = np.atleast_1d(np.poly(rts)) if deg else np.array([1.0])
         monic = [c / total[0] for c in total]
-        scale = max(F1, max(abs(c) for c in monic))
+        scale = max(F1, max(max(abs(c.re), abs(c.im)) for c in monic))
         for a, b in zip(rebuilt, monic):
             a = complex(a)
-            err = max(abs(fr(a.real) - b), abs(fr(a.imag))) / scale
+            err = max(abs(fr(a.real) - b.re), abs(fr(a.imag) - b.im)) / scale
             if err > TAU_ROOTS:
                 return Verdict(VIOLATES, "coefficients rebuilt from the roots %s, model polynomial %s"
-                               % (list(rebuilt), [float(c) for c in monic]), self.feats(case, "roots"))
+                               % (list(rebuilt), [complex(c) for c in monic]),
+                               self.feats(case, "roots", **extra))
         return self.plumb(case, plumbing)
 
     def plumb(self, case, plumbing):
@@ -1030,7 +1316,7 @@ class C04(Family):
     def nontrivial(self, case, model):
         sysd = case["sys"]
         dynamic = (sysd[0] == "LS" and sysd[1] > 0) or \
-            (sysd[0] == "LT" and any(len(e[1]) > 1 or len(e[0]) > 1 for e in sysd[4]))
+            (is_tf(sysd) and any(len(e[1]) > 1 or len(e[0]) > 1 for e in sysd[4]))
         notreal = case["op"] == "freq" or any(x[1] != "0" for x in case.get("xs", []))
         return "ok" in model and (dynamic or notreal)
 
@@ -1060,6 +1346,8 @@ class C04(Family):
         if "worst" in sd:
             w = sd["worst"]
             st["err/tol"] = "<=1e-3" if w <= 1e-3 else ("<=1e-1" if w <= 1e-1 else ">1e-1")
+        if sd.get("dc") and sysd[0] == "LC":
+            st["dc_complex_coeff"] = sd["dc"]
         if sd.get("unjudged"):
             st["exact_pole_not_exact_in_float_LU"] = "class not judged"
         if sd.get("zeros_unchecked"):
@@ -1083,6 +1371,17 @@ class C04(Family):
                 c["scalar"] = False
                 out.append(c)
         sysd = case["sys"]
+        if is_tf(sysd) and sysd[1] * sysd[2] > 1 and case["op"] in ("call", "freq", "dc"):
+            # drop one output row / one input column
+            p, m, ents = sysd[1], sysd[2], sysd[4]
+            for i in range(p if p > 1 else 0):
+                s2 = list(sysd)
+                s2[1], s2[4] = p - 1, [e for k, e in enumerate(ents) if k // m != i]
+                out.append(dict(case, sys=s2))
+            for j in range(m if m > 1 else 0):
+                s2 = list(sysd)
+                s2[2], s2[4] = m - 1, [e for k, e in enumerate(ents) if k % m != j]
+                out.append(dict(case, sys=s2))
         if sysd[0] == "LS":
             _, ns, p, m, dt, A, B, C, D = sysd
             for name, idx, vals in (("B", 6, B), ("C", 7, C), ("D", 8, D), ("A", 5, A)):
